@@ -20,15 +20,19 @@ Definition run_attrenc (m w page : N) : list Z :=
 Definition run_attrenc1 (m fg bg w page : N) : list Z :=
   [Z.of_N (as_u8 (mkAttr page fg bg w) (mode_of m))].
 
+(* packed: fg | bg << 8 | attr << 16 | font_page << 32 *)
+Definition pack_attr (a : TextAttribute) : Z :=
+  Z.of_N (foreground_color a + 256 * background_color a + 65536 * attr a + 4294967296 * font_page a).
 Definition run_fromcolor (lo n : N) : list Z :=
-  flat_map (fun i => flat_map (fun bg => obs_attr (from_color (lo + i) bg)) (nrange 256)) (nrange n).
+  flat_map (fun i => map (fun bg => pack_attr (from_color (lo + i) bg)) (nrange 256)) (nrange n).
 
+Definition nb (b : bool) : N := if b then 1 else 0.
+(* two packed numbers per flag word *)
 Definition run_flags (lo n : N) : list Z :=
   flat_map (fun i =>
     let a := mkAttr 0 7 0 (lo + i) in
-    [Z.of_N (attr (set_is_blinking a true)); Z.of_N (attr (set_is_blinking a false));
-     Z.of_N (attr (set_is_bold a true)); Z.of_N (attr (set_is_bold a false));
-     zb (is_bold a); zb (is_blinking a)]) (nrange n).
+    [Z.of_N (attr (set_is_blinking a true) + 65536 * attr (set_is_blinking a false) + 4294967296 * nb (is_blinking a));
+     Z.of_N (attr (set_is_bold a true) + 65536 * attr (set_is_bold a false) + 4294967296 * nb (is_bold a))]) (nrange n).
 
 Definition is_char (x : N) : bool := (x <? 55296) || ((57344 <=? x) && (x <? 1114112)).
 
